@@ -80,6 +80,44 @@ Theorem seqnum_strictly_increases_per_index :
 Proof. exact seqnum_strictly_increases_ok. Qed.
 Print Assumptions seqnum_strictly_increases_per_index.
 
+(* Losing and re-establishing the connection to the introducer between batches forgets nothing:
+   a stream with connection losses ends in the same state (same store, same deliveries, same
+   verdicts) as the stream of its batches delivered over one uninterrupted connection ... *)
+Theorem reconnect_preserves_state :
+  forall (pubkey keystr msg sig : Type) (verify : pubkey -> msg -> sig -> bool)
+         (parse_key : keystr -> option pubkey) (canon : pubkey -> keystr) (decode : msg -> option ann_json)
+         (keystr_eqb : keystr -> keystr -> bool)
+         (client : bool) (subscribed : N -> bool) (evs : list (event keystr msg sig)) (st : state keystr),
+    run_events verify parse_key canon decode keystr_eqb client subscribed st evs =
+    run_stream verify parse_key canon decode keystr_eqb client subscribed st (batches_of evs).
+Proof. exact run_events_batches. Qed.
+Print Assumptions reconnect_preserves_state.
+
+(* ... so freshness holds across reconnections: whatever an index held at some point of a stream
+   of batches and connection losses is, at every later point, unchanged or replaced by a strictly
+   greater integer sequence number (or had no seqnum). *)
+Theorem seqnum_strictly_increases_across_reconnects :
+  forall (pubkey keystr msg sig : Type) (verify : pubkey -> msg -> sig -> bool)
+         (parse_key : keystr -> option pubkey) (canon : pubkey -> keystr) (decode : msg -> option ann_json)
+         (keystr_eqb : keystr -> keystr -> bool),
+    (forall a b, keystr_eqb a b = true <-> a = b) ->
+    forall (client : bool) (subscribed : N -> bool) (evs1 evs2 : list (event keystr msg sig))
+           (i : index keystr) (old : ann),
+    lookup keystr_eqb
+      (st_store (fst (run_events verify parse_key canon decode keystr_eqb client subscribed empty_state evs1))) i = Some old ->
+    exists new,
+      lookup keystr_eqb
+        (st_store (fst (run_events verify parse_key canon decode keystr_eqb client subscribed empty_state (evs1 ++ evs2)))) i
+        = Some new /\
+      (new = old \/
+       match a_seq old with
+       | SAbsent => True
+       | SInt o | SHalf o => exists n, a_seq new = SInt n /\ (o < n)%Z
+       | SOther => False
+       end).
+Proof. exact seqnum_survives_reconnects_ok. Qed.
+Print Assumptions seqnum_strictly_increases_across_reconnects.
+
 (* the same, read for integer sequence numbers *)
 Theorem seqnum_never_replaced_by_lower_or_equal :
   forall (pubkey keystr msg sig : Type) (verify : pubkey -> msg -> sig -> bool)
@@ -176,6 +214,12 @@ Proof. vm_compute. reflexivity. Qed.
 Example ex_respelled_key_replay :
   let r := sym_run true ex_tbl true [7] [[good 1 11; WTriple 10 (SfOk (sym_sign 1 10)) (KfOk (1, 1))]] in
   (stored_ids (fst r), snd r) = ([(7, 1, 0, 11)], [[PNew; PTooOld]]).
+Proof. vm_compute. reflexivity. Qed.
+
+(* an old, validly signed announcement replayed after a reconnection is still refused *)
+Example ex_replay_after_reconnect :
+  let r := sym_run_events true ex_tbl true [7] [EBatch [good 1 10; good 1 11]; EReconnect; EBatch [good 1 10; good 1 13]] in
+  (stored_ids (fst r), snd r) = ([(7, 1, 0, 11)], [[PNew; PUpdate]; [PTooOld; PNoValidSeq]]).
 Proof. vm_compute. reflexivity. Qed.
 
 Example keystr_eqb_nonvacuous : forall a b, sym_keystr_eqb a b = true <-> a = b.
